@@ -1,18 +1,27 @@
 """C11 — cross/internal measures of interacting networks match sub-blocks.
 
 proof  : lean/Pyunicorn/Properties/C11.lean (kernel loops = sums over unordered pairs,
-         triples = C(k,2), dense = sparse, n.s.i. kernels = published double sums,
-         block order, group-exchange symmetry, whole-network limits)
+         triples = C(k,2), dense = sparse, n.s.i. kernels and methods = published double sums,
+         block order / transposition, group-exchange symmetry, order independence of the
+         triangular loops, APL = mean over reachable pairs, whole-network limits against the
+         model of Network (Model/Net.lean), loop bounds and normalisations regenerated from the
+         source by translate/arith_C11.json)
 tie    : correspondence of the Lean model (lean/Pyunicorn/Model/Cross.lean) with the four
          compiled kernels at the kernel boundary and with every cross_/internal_/nsi_
          method of InteractingNetworks on the same inputs (exact for integer outputs,
-         1e-9 relative for float outputs computed from dyadic data)
+         1e-9 relative for float outputs computed from dyadic data); the methods of a case are
+         called in random order on one long-lived object per graph (call histories); both
+         groups = all nodes included; gen_arith translator
 search : the definitions evaluated in `fractions.Fraction` on M[L1][:, L2] blocks of an
          adjacency / path-length / attribute matrix computed by the harness itself;
          both argument orders; dense vs `_sparse`; both groups = all nodes vs the
-         single-network method; list vs numpy-array node lists; CoupledClimateNetwork
-         wrappers
+         single-network method; list vs numpy-array node lists; twins constructed from other
+         dtypes / layouts (bit-identical) and rescaled by powers of two (exactly equivariant);
+         returned arrays not aliased; library state intact after the history; every
+         CoupledClimateNetwork wrapper incl. link_attribute; subnetwork; betweenness
 """
+import contextlib
+import io
 import itertools
 import math
 import warnings
@@ -91,7 +100,9 @@ def num_eq(x, q):
         return Fr(int(x)) == q
     if isinstance(x, float) and (math.isnan(x) or math.isinf(x)):
         return False
-    return abs(float(x) - float(q)) <= TOL * max(1.0, abs(float(q)))
+    # relative tolerance (the data are dyadic, so the library's sums are exact and only the final
+    # quotients are rounded); the floor only matters for exact zeros
+    return abs(float(x) - float(q)) <= TOL * max(2.0 ** -40, abs(float(q)))
 
 
 def same(impl, exact):
@@ -161,6 +172,9 @@ class Oracle:
 
     def internal_adjacency(self, L1, L2):
         return blk(self.A, L1, L1)
+
+    def cross_adjacency_sparse(self, L1, L2):
+        return blk(self.A, L1, L2)
 
     def cross_link_attribute(self, L1, L2):
         return blk(self.la, L1, L2)
@@ -237,6 +251,12 @@ class Oracle:
     def internal_strength(self, L1, L2):
         return self._deg(self.la, L1, L1)
 
+    def internal_instrength(self, L1, L2):
+        return self._in(self.la, L1, L1)
+
+    def internal_outstrength(self, L1, L2):
+        return self._out(self.la, L1, L1)
+
     def total_cross_degree(self, L1, L2):
         return sum(self.cross_degree(L1, L2)) / len(L1)
 
@@ -274,6 +294,14 @@ class Oracle:
         return sum(self.cross_local_clustering(L1, L2)) / len(L1)
 
     cross_global_clustering_sparse = cross_global_clustering
+
+    def internal_global_clustering(self, L1, L2):
+        # mean over the group of the Watts-Strogatz clustering in the WHOLE network
+        out = []
+        for v in L1:
+            tri, trp = self._tri_trp(v, range(self.n))
+            out.append(Fr(tri, trp) if trp else Fr(0))
+        return sum(out) / len(L1)
 
     # path lengths
     def cross_average_path_length(self, L1, L2, D=None):
@@ -388,7 +416,7 @@ class Oracle:
 PATH_MEASURES = ["cross_path_lengths", "internal_path_lengths", "cross_average_path_length",
                  "internal_average_path_length", "cross_closeness", "internal_closeness",
                  "average_cross_closeness", "local_efficiency", "global_efficiency"]
-CLUSTERING = ["cross_transitivity", "cross_transitivity_sparse", "cross_local_clustering",
+CLUSTERING = ["internal_global_clustering", "cross_transitivity", "cross_transitivity_sparse", "cross_local_clustering",
               "cross_local_clustering_sparse", "cross_global_clustering",
               "cross_global_clustering_sparse", "nsi_cross_local_clustering",
               "nsi_internal_local_clustering", "nsi_cross_global_clustering",
@@ -398,6 +426,7 @@ CLUSTERING = ["cross_transitivity", "cross_transitivity_sparse", "cross_local_cl
 SYMMETRIC = {"number_cross_links": "", "cross_link_density": "", "cross_average_path_length": "",
              "global_efficiency": "", "nsi_cross_edge_density": "",
              "nsi_cross_average_path_length": "", "cross_adjacency": "T",
+             "cross_adjacency_sparse": "T",
              "cross_link_attribute": "T", "cross_path_lengths": "T"}
 SPARSE_PAIRS = [("cross_transitivity", "cross_transitivity_sparse"),
                 ("cross_local_clustering", "cross_local_clustering_sparse"),
@@ -409,6 +438,10 @@ def impl_table(net, L1, L2, attr=None):
     la = "la"
     t = {
         "cross_adjacency": lambda: net.cross_adjacency(L1, L2),
+        "cross_adjacency_sparse": lambda: net.cross_adjacency_sparse(L1, L2),
+        "internal_global_clustering": lambda: net.internal_global_clustering(L1),
+        "internal_instrength": lambda: net.internal_indegree(L1, la),
+        "internal_outstrength": lambda: net.internal_outdegree(L1, la),
         "internal_adjacency": lambda: net.internal_adjacency(L1),
         "cross_link_attribute": lambda: net.cross_link_attribute(la, L1, L2),
         "internal_link_attribute": lambda: net.internal_link_attribute(la, L1),
@@ -474,28 +507,63 @@ def call(thunk):
 # --------------------------------------------------------------------------
 
 class Case:
-    __slots__ = ("n", "directed", "A", "w", "la", "Du", "Dw", "net", "tag")
+    __slots__ = ("n", "directed", "A", "w", "la", "Du", "Dw", "net", "tag", "wide")
 
 
-def make_case(n, directed, A, rng, IN, tag):
+def make_case(n, directed, A, rng, IN, tag, wide=False):
+    """wide: node weights and link attributes m*2^e, m < 8, |e| <= 6 (ratios up to 28672; still
+    dyadic and narrow enough that every sum and triple product formed by the library is exact in
+    binary64)"""
     c = Case()
     c.n, c.directed, c.A, c.tag = n, directed, A, tag
-    c.w = [Fr(rng.randrange(1, 9), 4) for _ in range(n)]
+    if wide:
+        c.w = [Fr(rng.randrange(1, 8)) * Fr(2) ** rng.randrange(-6, 7) for _ in range(n)]
+    else:
+        c.w = [Fr(rng.randrange(1, 9), 4) for _ in range(n)]
     la = [[Fr(0)] * n for _ in range(n)]
     for a in range(n):
         for b in range(n):
             if A[a][b] and (directed or a < b):
-                v = Fr(rng.randrange(1, 13), 4)
+                if wide:
+                    v = Fr(rng.randrange(1, 8)) * Fr(2) ** rng.randrange(-6, 7)
+                else:
+                    v = Fr(rng.randrange(1, 13), 4)
                 la[a][b] = v
                 if not directed:
                     la[b][a] = v
     c.la = la
+    c.wide = wide
     c.Du = floyd(n, [[Fr(1) if A[a][b] else None for b in range(n)] for a in range(n)])
     c.Dw = floyd(n, [[la[a][b] if A[a][b] else None for b in range(n)] for a in range(n)])
-    c.net = IN(np.array(A, dtype=np.int8).reshape(n, n), directed=directed,
-               node_weights=np.array([float(x) for x in c.w]), silence_level=3)
-    c.net.set_link_attribute("la", np.array([[float(x) for x in r] for r in la]).reshape(n, n))
+    c.net = build_net(IN, c, rng, "plain")
     return c
+
+
+ADJ_FORMS = ["plain", "list", "bool", "int64", "float64", "uint8-fortran"]
+
+
+def build_net(IN, c, rng, form):
+    """construct the InteractingNetworks object of a case from caller data in a given
+    representation (the library must not depend on the caller's dtype / layout)"""
+    n = c.n
+    A = np.array(c.A, dtype=np.int8).reshape(n, n)
+    w = np.array([float(x) for x in c.w])
+    la = np.array([[float(x) for x in r] for r in c.la]).reshape(n, n)
+    if form == "list":
+        A, w = [list(map(int, r)) for r in c.A], [float(x) for x in c.w]
+    elif form == "bool":
+        A, w = A.astype(bool), w.astype(np.float32) if not c.wide else w
+        la = la.astype(np.float32) if not c.wide else la
+    elif form == "int64":
+        A, w = A.astype(np.int64), w[::1].copy()
+    elif form == "float64":
+        A = A.astype(np.float64)
+        la = np.asfortranarray(la)
+    elif form == "uint8-fortran":
+        A = np.asfortranarray(A.astype(np.uint8))
+    net = IN(A, directed=c.directed, node_weights=w, silence_level=3)
+    net.set_link_attribute("la", la)
+    return net
 
 
 def graph_from_bits(n, bits, directed):
@@ -634,23 +702,33 @@ def run(ctx):
     ctx.rule = ("graphs: all undirected on 2-3 nodes, all directed on 2, "
                 f"{'8 sampled' if quick else 'all'} on 4, structured (empty/complete/path/star/"
                 "two components/cycle) on 4-6, random undirected/directed on 3-6 nodes, random on "
-                "7-14; dyadic node weights and link attributes; groups: all ordered bipartitions "
+                "7-14; dyadic node weights and link attributes k/4, for 30% of the graphs m*2^e with "
+                "m<8, |e|<=6; groups: all ordered bipartitions "
                 f"(n<=5{'; 24 sampled for n=6' if quick else ' and n=6'}) with lists in shuffled "
-                "order + disjoint non-covering pairs; distinct = distinct (graph, weights, L1, L2); "
+                "order + disjoint non-covering pairs + both groups = a permutation of all nodes; "
+                "methods of a case called in random order on one object per graph; "
+                "distinct = distinct (graph, weights, L1, L2); "
                 "non-trivial = graph has a link and both groups together have >= 3 nodes")
     ctx.trusted = common.DEFAULT_TRUSTED + [
         "Network.path_lengths / igraph distances (C03) are not modelled: the model and the oracle "
         "receive the harness's own Floyd-Warshall matrix, which is compared with the "
         "implementation's blocks",
         "interregional_betweenness (delegate of cross_/internal_betweenness) is checked by the "
-        "oracle only"]
+        "oracle only, nsi_cross_betweenness against Network.nsi_betweenness of a fresh object",
+        "Pyunicorn.Net (model of Network.degree / average_path_length / closeness / "
+        "local_clustering / transitivity used by the whole_* theorems) is tied to the "
+        "implementation by C03's correspondence, not by this check"]
     ctx.proofs()
 
     reqs, metas = [], []
     cases = []
+    nets = []
     for n, directed, A, tag in graphs(ctx, quick):
-        c = make_case(n, directed, A, rng, IN, tag)
+        wide = rng.random() < 0.3
+        c = make_case(n, directed, A, rng, IN, tag, wide)
+        nets.append(c)
         ctx.count("graph:" + tag)
+        ctx.count("weights:" + ("wide-dyadic-m*2^e,m<8,|e|<=6" if wide else "k/4"))
         groups = bipartitions(n, rng, None if (n <= 5 or not quick) else 24)
         groups += partial_pairs(n, rng, 2 if quick else 6)
         for L1, L2 in groups:
@@ -662,25 +740,45 @@ def run(ctx):
         p = rng.choice([0.1, 0.2, 0.35, 0.6])
         m = n * (n - 1) if directed else n * (n - 1) // 2
         A = graph_from_bits(n, [rng.random() < p for _ in range(m)], directed)
-        c = make_case(n, directed, A, rng, IN, "random-large")
+        wide = rng.random() < 0.3
+        c = make_case(n, directed, A, rng, IN, "random-large", wide)
+        nets.append(c)
         ctx.count("graph:random-large" + ("-directed" if directed else ""))
+        ctx.count("weights:" + ("wide-dyadic-m*2^e,m<8,|e|<=6" if wide else "k/4"))
         for L1, L2 in partial_pairs(n, rng, 3) + bipartitions(n, rng, 2):
             cases.append((c, L1, L2))
+    ndisjoint = len(cases)
+    # both groups = all nodes (in a random order): correspondence with the model only (the
+    # oracle's definitions are for disjoint groups; the whole-network relation is checked against
+    # the single-network methods in `relations`)
+    for c in nets:
+        perm = list(range(c.n))
+        if rng.random() < 0.6:
+            rng.shuffle(perm)
+        cases.append((c, perm, list(perm)))
 
     # ------------------------------------------------------------------
     # method-level: implementation vs Lean model vs oracle
     # ------------------------------------------------------------------
     impl_results = []
-    for c, L1, L2 in cases:
+    for ci, (c, L1, L2) in enumerate(cases):
         # (weighted path lengths of an edgeless graph fail inside igraph: Network.path_lengths,
         #  not C11's subject)
         weighted = rng.random() < 0.4 and any(any(r) for r in c.A)
+        # every case is one more step in the history of the object c.net: the methods are called
+        # in a random order, the weighted and unweighted path measures interleaved
         t = impl_table(c.net, L1, L2, None)
-        res = {k: call(f) for k, f in t.items()}
-        resw = None
+        todo = [(k, False) for k in t]
         if weighted:
             tw = impl_table(c.net, L1, L2, "la")
-            resw = {k: call(tw[k]) for k in PATH_MEASURES}
+            todo += [(k, True) for k in PATH_MEASURES]
+        rng.shuffle(todo)
+        res, resw = {}, ({} if weighted else None)
+        for k, wt in todo:
+            if wt:
+                resw[k] = call(tw[k])
+            else:
+                res[k] = call(t[k])
         impl_results.append((res, resw))
         reqs.append(request(c, L1, L2, c.Du))
         metas.append((len(impl_results) - 1, False))
@@ -691,7 +789,10 @@ def run(ctx):
         ctx.case((c.directed, c.n, c.A, [str(x) for x in c.w], L1, L2), nontrivial,
                  {"directed": c.directed, "adjacency": c.A, "L1": L1, "L2": L2,
                   "node_weights": [str(x) for x in c.w]})
-        ctx.count("groups:" + ("bipartition" if len(L1) + len(L2) == c.n else "partial"))
+        if ci >= ndisjoint:
+            ctx.count("groups:both-all-nodes")
+        else:
+            ctx.count("groups:" + ("bipartition" if len(L1) + len(L2) == c.n else "partial"))
         ctx.count("order:" + ("sorted" if L1 == sorted(L1) and L2 == sorted(L2) else "shuffled"))
         ctx.count("directed" if c.directed else "undirected")
         if any(c.Du[a][b] is None for a in L1 for b in L2):
@@ -726,7 +827,7 @@ def run(ctx):
     # kernel boundary
     # ------------------------------------------------------------------
     kreqs, kimpl = [], []
-    for c, L1, L2 in cases:
+    for c, L1, L2 in cases[:ndisjoint]:
         if c.directed or rng.random() < (0.5 if quick else 0.0):
             continue
         A = np.ascontiguousarray(np.array(c.A, dtype=np.int16).reshape(c.n, c.n))
@@ -777,14 +878,15 @@ def run(ctx):
     # ------------------------------------------------------------------
     # oracle on the implementation
     # ------------------------------------------------------------------
-    for (c, L1, L2), (res, resw) in zip(cases, impl_results):
+    dcases, dres = cases[:ndisjoint], impl_results[:ndisjoint]
+    for (c, L1, L2), (res, resw) in zip(dcases, dres):
         oracle_case(ctx, c, L1, L2, res, resw)
-    relations(ctx, cases, impl_results, IN, quick)
-    betweenness_checks(ctx, cases, quick)
+    relations(ctx, dcases, dres, IN, quick)
+    twin_checks(ctx, dcases, dres, IN, quick)
+    alias_checks(ctx, cases, quick, ndisjoint)
+    betweenness_checks(ctx, dcases, quick)
     ccn_checks(ctx, quick)
-    if bad and not ctx.failures:
-        # seed the search with the disagreeing cases: already covered by oracle_case above
-        pass
+    frame_checks(ctx, nets)
 
 
 def sig(method, relation, c, extra=None):
@@ -840,7 +942,7 @@ def impl_close(a, b):
     fa = [x for r in a for x in r]
     fb = [x for r in b for x in r]
     return len(fa) == len(fb) and all(
-        (math.isnan(x) and math.isnan(y)) or x == y or abs(x - y) <= TOL * max(1.0, abs(x))
+        (math.isnan(x) and math.isnan(y)) or x == y or abs(x - y) <= TOL * max(2.0 ** -40, abs(x))
         for x, y in zip(map(float, fa), map(float, fb)))
 
 
@@ -891,6 +993,44 @@ def relations(ctx, cases, impl_results, IN, quick):
                          f"same lists ({L1}, {L2})",
                          replay_of(c, L1, L2, method=nm, with_lists=str(res[nm]),
                                    with_arrays=str(got)))
+    # ---- sub-objects and the remaining delegates ---------------------------------
+    from pyunicorn.core import Network
+    for (c, L1, L2), (res, _) in sub:
+        subnet = None
+        try:
+            subnet = c.net.subnetwork(L1)
+            got = (canon_impl(subnet.adjacency), canon_impl(subnet.node_weights),
+                   bool(subnet.directed), int(subnet.N))
+        except Exception as e:  # noqa
+            got = "raise:" + type(e).__name__
+        exp = (res["internal_adjacency"], [[float(c.w[i]) for i in L1]], bool(c.directed), len(L1))
+        if len(L1) < 2:
+            # a Network on a single node cannot be constructed at all (link density 0/0 in
+            # Network.__init__): not C11's subject, only the error must be the constructor's
+            ctx.count("relation:subnetwork-single-node")
+            if got == "raise:ZeroDivisionError":
+                continue
+        ctx.count("relation:subnetwork")
+        if isinstance(got, str) or not (exact_equal(got[0], exp[0]) and exact_equal(got[1], exp[1])
+                                        and got[2:] == exp[2:]):
+            ctx.fail(sig("subnetwork", "definition-on-sub-blocks", c),
+                     f"subnetwork({L1}) is not the network on the internal adjacency block with "
+                     f"the group's node weights",
+                     replay_of(c, L1, L2, method="subnetwork", expected=str(exp)[:300],
+                               observed=str(got)[:300]))
+        if not c.directed:
+            ref_net = Network(adjacency=np.array(c.A, dtype=np.int8).reshape(c.n, c.n),
+                              directed=False, node_weights=np.array([float(x) for x in c.w]),
+                              silence_level=3)
+            ref = call(lambda: ref_net.nsi_betweenness(sources=list(L1), targets=list(L2)))
+            got = call(lambda: c.net.nsi_cross_betweenness(L1, L2))
+            ctx.count("relation:nsi-cross-betweenness-delegate")
+            if not impl_close(ref, got):
+                ctx.fail(sig("nsi_cross_betweenness", "equals-network-nsi-betweenness-of-groups", c),
+                         f"nsi_cross_betweenness({L1}, {L2}) differs from Network.nsi_betweenness("
+                         f"sources, targets) of an identical fresh network",
+                         replay_of(c, L1, L2, method="nsi_cross_betweenness", expected=str(ref)[:300],
+                                   observed=str(got)[:300]))
     # ---- both groups = all nodes --------------------------------------------
     for c in seen_nets.values():
         whole_network(ctx, c, rng)
@@ -972,6 +1112,172 @@ def whole_network(ctx, c, rng):
 
 
 # --------------------------------------------------------------------------
+# twins: same network from caller data in another representation / rescaled by powers of two
+# --------------------------------------------------------------------------
+
+NODE_DTYPES = [np.int64, np.int32, np.int16, np.uint8, np.intp]
+
+# how a measure scales when all node weights are multiplied by s (power of two): exponent
+NSI_SCALE = {"nsi_cross_degree": 1, "nsi_internal_degree": 1, "nsi_cross_mean_degree": 1,
+             "nsi_cross_edge_density": 0, "nsi_cross_local_clustering": 0,
+             "nsi_internal_local_clustering": 0, "nsi_cross_global_clustering": 0,
+             "nsi_cross_transitivity": 0, "nsi_cross_closeness_centrality": 0,
+             "nsi_internal_closeness_centrality": 0}
+# ... and when the link attribute is multiplied by s
+ATTR_SCALE = {"cross_link_attribute": 1, "internal_link_attribute": 1, "cross_strength": 1,
+              "cross_instrength": 1, "cross_outstrength": 1, "internal_strength": 1,
+              "internal_instrength": 1, "internal_outstrength": 1}
+PATH_SCALE = {"cross_path_lengths": 1, "internal_path_lengths": 1, "cross_average_path_length": 1,
+              "internal_average_path_length": 1, "local_efficiency": -1, "global_efficiency": 1}
+
+
+def scaled(v, f):
+    if isinstance(v, str):
+        return v
+    return [[x * f for x in r] for r in v]
+
+
+def exact_equal(a, b):
+    if isinstance(a, str) or isinstance(b, str):
+        return a == b
+    fa = [x for r in a for x in r]
+    fb = [x for r in b for x in r]
+    return len(a) == len(b) and len(fa) == len(fb) and all(
+        (isinstance(x, float) and isinstance(y, float) and math.isnan(x) and math.isnan(y))
+        or x == y for x, y in zip(fa, fb))
+
+
+def twin_checks(ctx, cases, impl_results, IN, quick):
+    rng = ctx.rng
+    frac = 0.06 if quick else 0.25
+    for (c, L1, L2), (res, _) in zip(cases, impl_results):
+        if rng.random() > frac:
+            continue
+        # ---- (a) other dtype / layout of the caller's arrays, node lists as arrays ----------
+        form = rng.choice(ADJ_FORMS[1:])
+        dt = rng.choice(NODE_DTYPES)
+        twin = build_net(IN, c, rng, form)
+        a1, a2 = np.array(L1, dtype=dt), np.array(L2, dtype=dt)
+        keep1, keep2 = a1.copy(), a2.copy()
+        t = impl_table(twin, a1, a2, None)
+        ctx.count("twin:caller-representation:" + form)
+        for nm, f in t.items():
+            got = call(f)
+            ctx.count("relation:twin-representation")
+            if not exact_equal(res[nm], got):
+                ctx.fail(sig(nm, "independent-of-caller-array-representation", c,
+                             {"adjacency_form": form}),
+                         f"{nm}({L1}, {L2}) changes when the same network is constructed from "
+                         f"{form} data and the node lists are {np.dtype(dt).name} arrays",
+                         replay_of(c, L1, L2, method=nm, adjacency_form=form,
+                                   node_list_dtype=np.dtype(dt).name, original=str(res[nm])[:300],
+                                   twin=str(got)[:300]))
+        if not (np.array_equal(a1, keep1) and np.array_equal(a2, keep2)):
+            ctx.fail(sig("*", "caller-node-lists-unchanged", c),
+                     "a node-list array passed by the caller was modified",
+                     replay_of(c, L1, L2))
+        # ---- (b) node weights and link attribute rescaled by (extreme) powers of two --------
+        kw = rng.choice([-40, -17, -3, 5, 23, 40])
+        ka = rng.choice([-30, -9, 4, 30])
+        tw = Case()
+        for k in ("n", "directed", "A", "Du", "tag"):
+            setattr(tw, k, getattr(c, k))
+        tw.wide = True
+        tw.w = [x * Fr(2) ** kw for x in c.w]
+        tw.la = [[x * Fr(2) ** ka for x in r] for r in c.la]
+        tw.Dw = None
+        net2 = build_net(IN, tw, rng, "plain")
+        t2 = impl_table(net2, L1, L2, None)
+        reach = all(c.Du[a][b] is not None for a in L1 for b in L2)
+        checks = [(nm, 2.0 ** (kw * e), t2[nm], res[nm]) for nm, e in NSI_SCALE.items()]
+        checks += [(nm, 2.0 ** (ka * e), t2[nm], res[nm]) for nm, e in ATTR_SCALE.items()]
+        if reach:
+            checks.append(("nsi_cross_average_path_length", 1.0,
+                           t2["nsi_cross_average_path_length"],
+                           res["nsi_cross_average_path_length"]))
+        if any(any(r) for r in c.A):
+            t1w = impl_table(c.net, L1, L2, "la")
+            t2w = impl_table(net2, L1, L2, "la")
+            for nm, e in PATH_SCALE.items():
+                checks.append((nm + "[la]", 2.0 ** (ka * e), t2w[nm], call(t1w[nm])))
+        ctx.count("twin:power-of-two-rescaling")
+        for nm, f, thunk, orig in checks:
+            if c.directed and nm in CLUSTERING:
+                continue
+            got = call(thunk)
+            ctx.count("relation:twin-rescaled")
+            if not exact_equal(scaled(orig, f), got):
+                ctx.fail(sig(nm, "equivariant-under-power-of-two-rescaling", c),
+                         f"{nm}({L1}, {L2}) does not scale exactly when the node weights are "
+                         f"multiplied by 2^{kw} and the link attribute by 2^{ka}",
+                         replay_of(c, L1, L2, method=nm, weight_exponent=kw, attribute_exponent=ka,
+                                   original=str(orig)[:300], rescaled=str(got)[:300]))
+
+
+# --------------------------------------------------------------------------
+# results handed to the caller are the caller's: writing into them must not change the network
+# --------------------------------------------------------------------------
+
+BLOCK_GETTERS = ["cross_adjacency", "cross_adjacency_sparse", "internal_adjacency",
+                 "cross_link_attribute", "internal_link_attribute", "cross_path_lengths",
+                 "internal_path_lengths", "cross_degree", "nsi_cross_degree", "cross_closeness"]
+
+
+def alias_checks(ctx, cases, quick, ndisjoint):
+    rng = ctx.rng
+    for ci, (c, L1, L2) in enumerate(cases):
+        # (the cases with both groups = all nodes are the ones where a sub-block could be the
+        #  library's own matrix)
+        if ci < ndisjoint and rng.random() > (0.05 if quick else 0.2):
+            continue
+        attr = "la" if (rng.random() < 0.5 and any(any(r) for r in c.A)) else None
+        t = impl_table(c.net, L1, L2, attr)
+        for nm in BLOCK_GETTERS:
+            try:
+                with warnings.catch_warnings():
+                    warnings.simplefilter("ignore")
+                    first = t[nm]()
+            except Exception:  # noqa
+                continue
+            if not isinstance(first, np.ndarray) or not first.size or not first.flags.writeable:
+                continue
+            keep = canon_impl(first.copy())
+            first[...] = 7
+            again = call(t[nm])
+            ctx.count("relation:returned-array-not-aliased")
+            if not exact_equal(keep, again):
+                ctx.fail(sig(nm, "returned-array-not-aliased", c, {"link_attribute": bool(attr)}),
+                         f"writing into the array returned by {nm}({L1}, {L2}) changes the result "
+                         f"of the next call",
+                         replay_of(c, L1, L2, method=nm, before=str(keep)[:300],
+                                   after=str(again)[:300]))
+
+
+def frame_checks(ctx, nets):
+    """after the whole history of calls on one object the data held by the library are intact"""
+    for c in nets:
+        net = c.net
+        items = [("adjacency", lambda: np.asarray(net.adjacency), c.A),
+                 ("node_weights", lambda: np.asarray(net.node_weights), [c.w]),
+                 ("link_attribute", lambda: np.asarray(net.link_attribute("la")), c.la),
+                 ("path_lengths()", lambda: net.path_lengths(), c.Du)]
+        if any(any(r) for r in c.A):
+            items.append(("path_lengths('la')", lambda: net.path_lengths("la"), c.Dw))
+        for what, f, exp in items:
+            got = call(f)
+            ctx.count("relation:library-state-intact")
+            if not same(got, shape_exact(exp)):
+                ctx.fail({"class": "InteractingNetworks", "method": "<history of cross_/internal_ "
+                          "calls>", "relation": "library-state-intact", "state": what,
+                          "directed": bool(c.directed)},
+                         f"{what} held by the network object differs from the constructor's data "
+                         f"after a history of cross_/internal_/nsi_ calls",
+                         {"directed": c.directed, "adjacency": c.A,
+                          "node_weights": [str(x) for x in c.w], "state": what,
+                          "expected": str(exp)[:300], "observed": str(got)[:300]})
+
+
+# --------------------------------------------------------------------------
 # betweenness (delegates to Network.interregional_betweenness): oracle only
 # --------------------------------------------------------------------------
 
@@ -1046,7 +1352,7 @@ def ccn_checks(ctx, quick):
         p = rng.choice([0.3, 0.5, 0.8])
         bits = [rng.random() < p for _ in range(n * (n - 1) // 2)]
         A = graph_from_bits(n, bits, False)
-        S = np.where(np.array(A) == 1, 0.9, 0.1)
+        S = np.where(np.array(A) == 1, 0.875, 0.125)   # exact in float32 as well
         np.fill_diagonal(S, 1.0)
         try:
             ccn = CoupledClimateNetwork(g1, g2, S, threshold=0.5, silence_level=3)
@@ -1070,15 +1376,64 @@ def ccn_checks(ctx, quick):
                  {"class": "CoupledClimateNetwork", "adjacency": A, "N_1": N1})
         ctx.count("ccn:networks")
 
-        def both(name):
-            return (getattr(o, name)(L1, L2), getattr(o, name)(L2, L1))
+        # a dyadic link attribute for the wrappers' non-default `link_attribute` argument
+        la = [[Fr(0)] * n for _ in range(n)]
+        for a in range(n):
+            for b in range(a):
+                if A[a][b]:
+                    la[a][b] = la[b][a] = Fr(rng.randrange(1, 13), 4)
+        c.la = la
+        has_links = any(any(r) for r in A)
+        if has_links:
+            ccn.set_link_attribute("la", np.array([[float(x) for x in r] for r in la]))
+            c.Dw = floyd(n, [[la[a][b] if A[a][b] else None for b in range(n)]
+                             for a in range(n)])
+        o = Oracle(n, False, A, c.w, c.la, c.Du, c.Dw)
+        held1, held2 = list(ccn.nodes_1), list(ccn.nodes_2)
+
+        def both(name, *extra):
+            return (getattr(o, name)(L1, L2, *extra), getattr(o, name)(L2, L1, *extra))
 
         def pair(v):
             return v if isinstance(v, str) else tuple(v)
+
+        def split(v):
+            return ([v[i] for i in L1], [v[i] for i in L2])
+
+        # independent great-circle angular distance between the grid points of the two layers
+        lat = np.radians(np.concatenate([g1.grid()["lat"], g2.grid()["lat"]]).astype(float))
+        lon = np.radians(np.concatenate([g1.grid()["lon"], g2.grid()["lon"]]).astype(float))
+        cosd = (np.sin(lat)[:, None] * np.sin(lat)[None, :]
+                + np.cos(lat)[:, None] * np.cos(lat)[None, :]
+                * np.cos(lon[:, None] - lon[None, :]))
+        ang = np.arccos(np.clip(cosd, -1.0, 1.0))
+        Anp = np.array(A, dtype=float)
+        with np.errstate(all="ignore"):
+            cald = [(Anp[:N1, N1:] * ang[:N1, N1:]).sum(axis=ax) / Anp[:N1, N1:].sum(axis=ax)
+                    for ax in (1, 0)]
+        Sfull = np.array(ccn.similarity_measure(), dtype=float)
         table = [
             ("adjacency_1", ccn.adjacency_1, o.internal_adjacency(L1, L2)),
             ("adjacency_2", ccn.adjacency_2, o.internal_adjacency(L2, L1)),
+        ]
+        # (a GeoNetwork on a single node cannot be constructed: Network.__init__ divides by
+        #  N (N - 1); not C11's subject)
+        if N1 > 1:
+            table.append(("network_1.adjacency", lambda: ccn.network_1().adjacency,
+                          o.internal_adjacency(L1, L2)))
+        if N2 > 1:
+            table.append(("network_2.adjacency", lambda: ccn.network_2().adjacency,
+                          o.internal_adjacency(L2, L1)))
+        table += [
             ("cross_layer_adjacency", ccn.cross_layer_adjacency, o.cross_adjacency(L1, L2)),
+            ("similarity_measure_1", ccn.similarity_measure_1, ("np", S[:N1, :N1], 0.0)),
+            ("similarity_measure_2", ccn.similarity_measure_2, ("np", S[N1:, N1:], 0.0)),
+            ("cross_similarity_measure", ccn.cross_similarity_measure, ("np", S[:N1, N1:], 0.0)),
+            ("cross_link_distance", ccn.cross_link_distance, ("np", ang[:N1, N1:], 5e-6)),
+            ("cross_average_link_distance", ccn.cross_average_link_distance,
+             ("np", cald[0], 5e-6)),
+            ("cross_average_link_distance(reverse=True)",
+             lambda: ccn.cross_average_link_distance(reverse=True), ("np", cald[1], 5e-6)),
             ("path_lengths_1", ccn.path_lengths_1, o.internal_path_lengths(L1, L2)),
             ("path_lengths_2", ccn.path_lengths_2, o.internal_path_lengths(L2, L1)),
             ("cross_path_lengths", ccn.cross_path_lengths, o.cross_path_lengths(L1, L2)),
@@ -1087,6 +1442,8 @@ def ccn_checks(ctx, quick):
             ("number_internal_links", ccn.number_internal_links, both("number_internal_links")),
             ("cross_link_density", ccn.cross_link_density, o.cross_link_density(L1, L2)),
             ("internal_link_density", ccn.internal_link_density, both("internal_link_density")),
+            ("internal_global_clustering", ccn.internal_global_clustering,
+             both("internal_global_clustering")),
             ("cross_global_clustering", ccn.cross_global_clustering,
              both("cross_global_clustering")),
             ("cross_transitivity", ccn.cross_transitivity, both("cross_transitivity")),
@@ -1100,17 +1457,50 @@ def ccn_checks(ctx, quick):
              both("cross_local_clustering")),
             ("cross_closeness", ccn.cross_closeness, both("cross_closeness")),
             ("internal_closeness", ccn.internal_closeness, both("internal_closeness")),
+            ("cross_betweenness", ccn.cross_betweenness, split(oracle_betweenness(c, L1, L2))),
+            ("internal_betweenness_1", ccn.internal_betweenness_1,
+             split(oracle_betweenness(c, L1, L1))),
+            ("internal_betweenness_2", ccn.internal_betweenness_2,
+             split(oracle_betweenness(c, L2, L2))),
         ]
+        if has_links:
+            D = c.Dw
+            table += [
+                ("path_lengths_1(la)", lambda: ccn.path_lengths_1("la"),
+                 o.internal_path_lengths(L1, L2, D)),
+                ("path_lengths_2(la)", lambda: ccn.path_lengths_2(link_attribute="la"),
+                 o.internal_path_lengths(L2, L1, D)),
+                ("cross_path_lengths(la)", lambda: ccn.cross_path_lengths("la"),
+                 o.cross_path_lengths(L1, L2, D)),
+                ("cross_average_path_length(la)", lambda: ccn.cross_average_path_length("la"),
+                 o.cross_average_path_length(L1, L2, D)),
+                ("internal_average_path_length(la)",
+                 lambda: ccn.internal_average_path_length("la"),
+                 both("internal_average_path_length", D)),
+                ("cross_closeness(la)", lambda: ccn.cross_closeness("la"),
+                 both("cross_closeness", D)),
+                ("internal_closeness(la)", lambda: ccn.internal_closeness(link_attribute="la"),
+                 both("internal_closeness", D)),
+            ]
+        rng.shuffle(table)
         for nm, f, exp in table:
             ctx.count("ccn:wrapper-calls")
             try:
                 with warnings.catch_warnings():
                     warnings.simplefilter("ignore")
                     with np.errstate(all="ignore"):
-                        got = f()
+                        with contextlib.redirect_stdout(io.StringIO()):
+                            got = f()
             except Exception as e:  # noqa
                 got = "raise:" + type(e).__name__
-            if isinstance(exp, tuple):
+            if isinstance(exp, tuple) and len(exp) == 3 and isinstance(exp[0], str) \
+                    and exp[0] == "np":
+                ref, tol = np.asarray(exp[1], dtype=float), exp[2]
+                g = None if isinstance(got, str) else np.asarray(got, dtype=float)
+                ok = g is not None and g.shape == ref.shape and bool(np.all(
+                    (np.isnan(g) & np.isnan(ref)) | (np.abs(g - ref) <= tol)))
+                exp = ref.tolist()
+            elif isinstance(exp, tuple):
                 ok = (isinstance(got, tuple) and len(got) == 2 and all(
                     (isinstance(e_, str) and e_.startswith("raise:")) or
                     same(canon_impl(g_), shape_exact(e_)) for g_, e_ in zip(got, exp))) or \
@@ -1124,3 +1514,11 @@ def ccn_checks(ctx, quick):
                          f"layer blocks (N_1={N1}, N_2={N2})",
                          {"adjacency": A, "N_1": N1, "N_2": N2, "method": nm,
                           "expected": str(exp)[:400], "observed": str(got)[:400]})
+        ctx.count("relation:library-state-intact")
+        if list(ccn.nodes_1) != held1 or list(ccn.nodes_2) != held2 or \
+                [[int(x) for x in r] for r in np.asarray(ccn.adjacency).tolist()] != A:
+            ctx.fail({"class": "CoupledClimateNetwork", "method": "<history of wrapper calls>",
+                      "relation": "library-state-intact"},
+                     "nodes_1 / nodes_2 / adjacency held by the CoupledClimateNetwork changed "
+                     "during a history of wrapper calls",
+                     {"adjacency": A, "N_1": N1, "N_2": N2})
